@@ -771,6 +771,38 @@ pub fn explore_all<M: Monitor>(rep: &mut Reporter, systems: &[WorldSys<'_, M>], 
     rep.assume("the model is the implementation: every transition calls the real Port/PtpInstance handlers; the environment (host timers, peers, clock, rng, TLV provider) is harness code written to the documented host contract");
 }
 
+/// Explore many small worlds (a configuration sweep) to one depth, worlds in parallel; the counters
+/// are added to the totals of `explore_all` and summarised under `coverage[tag]`.
+pub fn explore_more<M: Monitor>(rep: &mut Reporter, tag: &str, systems: &[WorldSys<'_, M>], depth: usize, seconds_each: f64) {
+    use rayon::prelude::*;
+    let results: Vec<(Stats, Vec<crate::report::Violation>)> = systems.par_iter().map(|sys| explore(sys, &Limits { max_depth: depth, max_seconds: seconds_each, max_states: 1_000_000 })).collect();
+    let mut states = 0u64;
+    let mut trans = 0u64;
+    let mut capped = vec![];
+    let mut outcomes = 0usize;
+    for (sys, (st, viols)) in systems.iter().zip(results) {
+        states += st.states;
+        trans += st.transitions;
+        outcomes = outcomes.max(st.outcomes);
+        if let Some(c) = &st.capped {
+            capped.push(format!("{}: {}", sys.name, c));
+        }
+        rep.violations(viols);
+    }
+    rep.cover_add("states", states);
+    rep.cover_add("transitions", trans);
+    rep.cover_add("traces_validated_against_impl", trans);
+    rep.cover(
+        tag,
+        serde_json::json!({"worlds": systems.len(), "depth_bound": depth, "states": states, "transitions": trans, "max_distinct_outcomes_in_a_world": outcomes, "capped": capped,
+            "first_worlds": systems.iter().take(6).map(|s| s.name.clone()).collect::<Vec<_>>()}),
+    );
+    if !capped.is_empty() {
+        rep.cover("exhaustive", serde_json::json!(false));
+        rep.assume(format!("{tag}: {} world(s) hit a cap: {}", capped.len(), capped.join("; ")));
+    }
+}
+
 /// alphabet builder
 pub struct Alpha(pub Vec<Ev>);
 impl Alpha {
